@@ -34,8 +34,12 @@ impl Intersect for Line2 {
         //
         let u_b = other.dy() * self.dx() - other.dx() * self.dy();
         // Where u_b == 0 the two lines are parallel. In this case we don't need any further checks
-        // since we are only concerned with lines that cross, parallel is fine.
-        if u_b == 0. {
+        // since we are only concerned with lines that cross, parallel is fine. Lines which are
+        // only parallel up to the rounding of their coordinates are included, otherwise two
+        // separated lines lying along the same line divide one rounding error by another and
+        // can be reported as intersecting.
+        let scale = (self.dx().abs() + self.dy().abs()) * (other.dx().abs() + other.dy().abs());
+        if u_b.abs() <= 1e-12 * scale {
             return false;
         }
 
@@ -47,7 +51,11 @@ impl Intersect for Line2 {
         let ua = ua_t / u_b;
         let ub = ub_t / u_b;
         // Should the points ua, ub both lie on the interval [0, 1] the lines intersect.
-        if 0. <= ua && ua <= 1. && 0. <= ub && ub <= 1. {
+        // The end points of the lines are included, with a tolerance for the rounding of the
+        // coordinates. Where the corner of one shape lies on the edge of another this is the
+        // only place the two shapes cross, which can't be missed because of a rounding error.
+        let eps = 1e-10;
+        if -eps <= ua && ua <= 1. + eps && -eps <= ub && ub <= 1. + eps {
             return true;
         }
         false
